@@ -35,7 +35,7 @@ MUST_SEE = [
     "validate_ok", "frames_checked", "derived_visitor_after_base_used",
 ]
 CONFIG = {
-    "quick": {"shards": 16, "cases": 120, "watchdog_s": 600},
+    "quick": {"shards": 16, "cases": 1500, "watchdog_s": 600},
     "thorough": {"shards": 32, "cases": 1500, "watchdog_s": 3400},
 }
 
@@ -420,5 +420,6 @@ def run_shard(ctx):
             continue
         if exp is not None and exp is not s and any(id(c) in memo for _, _, c in child_slots(U, exp)):
             ctx.count("unchanged_subtree_under_changed_root")
-        if calls_real != calls_ref:
-            ctx.violation("transform-visit-order", "visitor methods were not called on the expected nodes in the expected order", dict(detail, n_real=len(calls_real), n_ref=len(calls_ref)))
+        # which nodes are visited (and how often) follows from the rules; the order of visits is not specified
+        if sorted(calls_real) != sorted(calls_ref):
+            ctx.violation("transform-visited-nodes", "visitor methods were not called on exactly the nodes the rules prescribe", dict(detail, n_real=len(calls_real), n_ref=len(calls_ref)))
